@@ -507,7 +507,7 @@ func (x *Exec) evalSel(env *Env, c *Clause, e *Expr) (SymVal, types.Type) {
 		if p, ok := types.Unalias(ct).Underlying().(*types.Pointer); ok {
 			st := p.Elem()
 			k, f := x.fieldHeapKey(st, i)
-			cur = Select(x.heap(env.st, k), cur)
+			cur = x.loadAt(env.st, k, cur)
 			ct = f.typ
 			x.heapReadWF(env, cur, ct, k)
 			continue
@@ -534,7 +534,9 @@ func (x *Exec) evalIndex(env *Env, c *Clause, e *Expr) (SymVal, types.Type) {
 			return ev, u.Elem()
 		case *types.Map:
 			_, vk, _ := x.mapHeapKeys(u)
-			return Select(Select(x.heap(env.st, vk), b), i), u.Elem()
+			mv := Select(Select(x.heap(env.st, vk), b), i)
+			x.heapReadWF(env, mv, u.Elem(), vk)
+			return mv, u.Elem()
 		case *types.Array:
 			return Select(b, i), u.Elem()
 		}
@@ -586,6 +588,15 @@ func (x *Exec) quant(env *Env, c *Clause, e *Expr, forall bool) (SymVal, types.T
 	env2.binds[name] = Bound{V: qv, T: gt}
 	var wfs []Term
 	env2.qwf = &wfs
+	// with(body, t1, t2, ...): explicit instantiation triggers for this quantifier
+	var trigs []Term
+	if body.Kind == "call" && body.Op == "with" && len(body.Args) >= 2 {
+		for _, te := range body.Args[1:] {
+			tv, tt := x.eval(env2, c, te)
+			trigs = append(trigs, x.asTerm(env2, c, tv, tt, ""))
+		}
+		body = body.Args[0]
+	}
 	bv, _ := x.eval(env2, c, body)
 	bt, ok := bv.(Term)
 	if !ok || bt.Sort != SBool {
@@ -607,7 +618,15 @@ func (x *Exec) quant(env *Env, c *Clause, e *Expr, forall bool) (SymVal, types.T
 		env.liveState().Assume(w)
 	}
 	if forall {
-		return mk(SBool, fmt.Sprintf("(forall ((%s %s)) %s)", qv.S, sort, Implies(guard, bt).S)), types.Typ[types.Bool]
+		inner := Implies(guard, bt).S
+		if len(trigs) > 0 {
+			var ps []string
+			for _, t := range trigs {
+				ps = append(ps, ":pattern ("+t.S+")")
+			}
+			inner = "(! " + inner + " " + strings.Join(ps, " ") + ")"
+		}
+		return mk(SBool, fmt.Sprintf("(forall ((%s %s)) %s)", qv.S, sort, inner)), types.Typ[types.Bool]
 	}
 	return mk(SBool, fmt.Sprintf("(exists ((%s %s)) %s)", qv.S, sort, And(guard, bt).S)), types.Typ[types.Bool]
 }
@@ -716,6 +735,15 @@ func (x *Exec) evalCall(env *Env, c *Clause, e *Expr) (SymVal, types.Type) {
 			return Select(x.heap(env.st, hk), m), nil
 		}
 		return Select(x.heap(env.st, vk), m), nil
+	case "at":
+		// at(S, "T", i): element i of a (ghost) slice value S whose elements have Go type T
+		need(3)
+		sv := argT(0)
+		t := x.resolveType(env, c, e.Args[1].Lit)
+		k := x.elemHeapKey(t)
+		ev := Select(Select(x.heap(env.st, k), SlBase(sv)), SlIdx(sv, argT(2)))
+		x.heapReadWF(env, ev, t, k)
+		return ev, t
 	case "elems":
 		// elems("T"): the element heap of slices of T (base -> index -> value)
 		need(1)
@@ -833,6 +861,11 @@ func (x *Exec) evalCall(env *Env, c *Clause, e *Expr) (SymVal, types.Type) {
 		need(1)
 		t := argT(0)
 		return And(Gt(t, Zero), Lt(t, env.st.top)), boolT
+	case "wasalloc":
+		// wasalloc(x): the reference x (current value) was already allocated in the old state
+		need(1)
+		t := argT(0)
+		return And(Gt(t, Zero), Lt(t, env.old.top)), boolT
 	case "done":
 		need(1)
 		return Select(x.heap(env.st, kCtxDone), argT(0)), boolT
